@@ -65,7 +65,7 @@ def CREATE_SUCCESS : Nat := 0x00
 def CREATE_NOT_ALLOWED : Nat := 0x01
 def DELETE_SUCCESS : Nat := 0x10
 def DELETE_FILE_DOES_NOT_EXIST : Nat := 0x11
-def DELETE_NOT_ALLOWED : Nat := 0x12
+def DELETE_NOT_ALLOWED : Nat := 0x1F
 def RENAME_SUCCESS : Nat := 0x20
 def RENAME_OLD_FILE_DOES_NOT_EXIST : Nat := 0x21
 def RENAME_NEW_FILE_DOES_EXIST : Nat := 0x22
@@ -163,6 +163,28 @@ def removeDirectory (fs : Fs) (p : String) (recursive : Bool) : Nat × Fs :=
     (REMOVE_DIR_SUCCESS, Fs.del (List.filter (fun e => !(e.1.startsWith (p ++ "/"))) fs) p)
   else if hasChildren fs p then (REMOVE_DIR_NOT_ALLOWED, fs)
   else (REMOVE_DIR_SUCCESS, fs.del p)
+
+/-! The two operations where the host refuses for a reason the interface has no status code for
+(the parent directory of the new name does not exist): `os.mkdir` / `Path.rename` raise
+`FileNotFoundError` (or `NotADirectoryError` when the parent is a regular file). -/
+
+def parentErr (fs : Fs) (p : String) : Option FsErr :=
+  if parentIsDir fs p then none
+  else if exists' fs (parentOf p) then some .notADirectory else some .fileNotFound
+
+def createDirectoryE (fs : Fs) (p : String) : Except FsErr (Nat × Fs) :=
+  if exists' fs p then .ok (createDirectory fs p)
+  else match parentErr fs p with
+    | some e => .error e
+    | none => .ok (createDirectory fs p)
+
+def renameFileE (fs : Fs) (old new : String) : Except FsErr (Nat × Fs) :=
+  let r := renameFile fs old new
+  if r.1 = RENAME_SUCCESS then
+    match parentErr fs new with
+    | some e => .error e
+    | none => .ok r
+  else .ok r
 
 end Fs
 end Cfdp
